@@ -80,7 +80,7 @@ def set_order_part(out):
   """Set (DistinctListAgg) must not depend on arrival order."""
   from ..z3k import pyset
   from .. import real
-  res = kern.check(K.HEAD + K.SET_ORDER, ['k_distinct_list_agg_order'], timeout=60, twins=False)
+  res = kern.check(K.HEAD + K.SET_ORDER, ['k_distinct_list_agg_order'], timeout=600, twins=False)
   v = res['k_distinct_list_agg_order'].get('verdict')
   cov = out.coverage.setdefault('kernels', {})
   cov['set order'] = {'crosshair_verdict': v}
@@ -131,7 +131,7 @@ def kernel_part(out):
   src += K.LIMIT_RAISES + K.OTHERS
   names += ['k_limit_must_be_positive', 'k_array_concat_agg', 'k_array_concat', 'k_sort_list', 'k_in_list',
             'k_distinct_list_agg_content', 'k_join']
-  kernels.run_kernels(out, 'sqlite UDFs', src, names, 600, replay_udf)
+  kernels.run_kernels(out, 'sqlite UDFs', src, names, 1500, replay_udf)
   ssrc, snames = K.seq_source()
   kernels.run_kernels(out, 'sqlite UDFs: calls do not interfere', ssrc, snames, 600, replay_seq)
   set_order_part(out)
